@@ -400,7 +400,8 @@ def add_connection(u):
                     'final(self).same_except_window_cc(old(self))']))
     F(u.fn(CONN, 'record_rtt_probe', impl='SrtlaConnection', sub='reconn',
            requires=['old(self).phase is Warming ==> old(self).phase->rtt_probes < 0xffff_ffff'],
-           ensures=['final(self).same_except_phase(old(self))', 'old(self).phase is Registering ==> final(self).phase is Registering']))
+           ensures=['final(self).same_except_phase(old(self))', 'old(self).phase is Registering ==> final(self).phase is Registering',
+                    'final(self).phase is Warming ==> final(self).phase->rtt_probes < WARMING_RTT_PROBES', '!(old(self).phase is Warming) ==> final(self).phase == old(self).phase']))
     F(u.fn(CONN, 'is_schedulable', impl='SrtlaConnection', sub='select', ret='r', ensures=[C('C03+C04.select.conn.schedulable_iff_registered', 'r == self.spec_sched()')]))
     F(u.fn(CONN, 'phase_weight', impl='SrtlaConnection', sub='select', ret='r', ensures=[C('C11.select.conn.phase_weight_delegates', 'r == spec_phase_weight(self.phase)')]))
     for nm in ('effective_stall_stale_ms', 'silence_pull_window_ms'):
@@ -557,7 +558,7 @@ def add_selection(u):
                pre_rewrite=[(re.compile(r'let any_healthy = conns\.iter\(\)\.any\(\|c\| \{.*?\}\);', re.S),
                              'let any_healthy = any_healthy_helper(conns, current_time_ms);', 1)],
                requires=S.GATE_REQUIRES, ensures=S.GATE_ENSURES,
-               loops={k: dict(inv=inv, dec='conns.len() - c_nx') for k, inv in enumerate(S.GATE_INVS)},
+               loops={k: dict(inv=inv, dec='conns.len() - c_nx') for k, inv in S.GATE_LOOPS.items()},
                splices=S.GATE_SPLICES))
     u.add(u.fn(K + 'selection/mod.rs', 'select_connection_idx', sub='select', ret='r',
                requires=S.IDX_REQUIRES, ensures=S.IDX_ENSURES, splices=S.IDX_SPLICES))
